@@ -187,6 +187,8 @@ def check(case, rec):
                 with open(path + '_index', 'wb') as f:
                     f.write(index)
             _histories(rec, acct, TdmsFile, path, data, ex, d, valid)
+            if valid:
+                _two_files(rec, acct, TdmsFile, path, data, ex, d, idx_kind != 'none')
             _index_stream_histories(rec, acct, TdmsFile, index, d)
             read_raised = acct.raised
             _writer_histories(rec, acct, TdmsFile, TdmsWriter, RootObject, ChannelObject, path, d, case)
@@ -367,6 +369,58 @@ def _histories(rec, acct, TdmsFile, path, data, ex, d, valid):
             rawobj.close()
         if bio.closed:
             rec.violation('caller_stream_closed', 'the caller\'s BytesIO was closed by the library')
+
+
+def _two_files(rec, acct, TdmsFile, path, data, ex, d, with_index):
+    """two files alive at once: reading and closing one must neither close nor leak the other's descriptors"""
+    import shutil
+    other = os.path.join(d, 'other.tdms')
+    shutil.copyfile(path, other)
+    if with_index:
+        shutil.copyfile(path + '_index', other + '_index')
+    before = open_fds(d)
+    try:
+        a = TdmsFile.open(path)
+    except Exception:       # noqa
+        return
+    try:
+        mine = {fd: t for fd, t in open_fds(d).items() if fd not in before}
+        run_reads(rec, acct, a, ex, 'two_files')
+        # another file comes and goes: eager read, metadata read, lazy open + reads + close
+        TdmsFile.read(other)
+        TdmsFile.read_metadata(other)
+        with TdmsFile.open(other) as b:
+            run_reads(rec, acct, b, ex, 'two_files')
+        now = open_fds(d)
+        gone = [t for fd, t in mine.items() if fd not in now]
+        extra = [t for fd, t in now.items() if fd not in before and fd not in mine]
+        if gone:
+            rec.violation('other_file_closed', 'reading and closing other.tdms closed descriptors of the still open x.tdms: %r' % gone)
+        if extra:
+            rec.violation('fd_leak:other_file', 'descriptors of other.tdms left open after read / close: %r' % sorted(extra))
+        # the first file is still fully usable
+        for p in ex.channel_paths()[:2]:
+            g, c = split_path(p)
+            n = ex.length(p)
+            t = ex.objects[p]['type']
+            if n == 0 or t is None or t == 'ts':
+                continue
+            try:
+                v = a[g][c][n - 1]
+                whole = a[g][c][:]
+            except Exception as e:      # noqa
+                rec.violation('other_file_closed:read_raised', 'x.tdms is still open, but after other.tdms was read and closed '
+                              '%s[%d] raises %s' % (p, n - 1, describe_exc(e)), key=exc_key(e))
+                break
+            msgs = compare_scalars(t, ex.values(p), [v], [n - 1], 'x.tdms %s[%d] after other.tdms was closed' % (p, n - 1)) or \
+                compare_values(t, ex.values(p), whole, 'x.tdms %s[:] after other.tdms was closed' % p)
+            if msgs:
+                rec.violation('other_file_closed:values', msgs[0])
+    except Exception as e:      # noqa
+        rec.violation('two_files:raised', describe_exc(e), key=exc_key(e))
+    finally:
+        a.close()
+    acct.expect_clean(before, 'two_files', 'x.tdms and other.tdms both closed')
 
 
 def _index_stream_histories(rec, acct, TdmsFile, index, d):
